@@ -5,11 +5,13 @@ n=0
 while true; do
   total=$(wc -l < /tmp/seed/queue.txt)
   if [ $n -ge $total ]; then sleep 20; continue; fi
-  n=$((n+1)); line=$(sed -n "${n}p" /tmp/seed/queue.txt); set -- $line; P=$1; K=$2
+  n=$((n+1)); line=$(sed -n "${n}p" /tmp/seed/queue.txt); set -- $line; P=$1; K=$2; ROOT=${3:-/tmp/seed}; RK=${4:-$K}
   [ "$P" = "STOP" ] && exit 0
+  [ -f /tmp/seed/results/${P}_$RK.txt ] && continue
+  if [ "$P" = "HEAD" ]; then while pgrep -f "pytest -ra -q|pytest -q -p no:cacheprovider --timeout" >/dev/null; do sleep 15; done; /verif/tools/run_repo_tests.sh > /dev/null 2>&1; echo done > /tmp/seed/results/HEAD_$K.txt; continue; fi
   while pgrep -f "pytest -ra -q\|pytest -q -p no:cacheprovider --timeout" >/dev/null; do sleep 15; done
   wt=/tmp/sq_${P}_$K; git -C /repo worktree remove --force $wt 2>/dev/null
   git -C /repo worktree add -q --detach $wt HEAD
-  (cd $wt && git apply /tmp/seed/${P}_work/patch$K.diff && PYTHONPATH=$wt/src:$wt /venv/bin/python -m pytest -q -p no:cacheprovider --timeout=900 > /tmp/seed/results/${P}_$K.log 2>&1; echo "rc=$? $(tail -1 /tmp/seed/results/${P}_$K.log | cut -c1-100)" > /tmp/seed/results/${P}_$K.txt)
+  (cd $wt && git apply $ROOT/${P}_work/patch$K.diff && PYTHONPATH=$wt/src:$wt /venv/bin/python -m pytest -q -p no:cacheprovider --timeout=900 > /tmp/seed/results/${P}_$RK.log 2>&1; echo "rc=$? $(tail -1 /tmp/seed/results/${P}_$RK.log | cut -c1-100)" > /tmp/seed/results/${P}_$RK.txt)
   git -C /repo worktree remove --force $wt
 done
